@@ -1,24 +1,48 @@
 (* templates: common ta_io *)
-(* C15: input  cand <T A> ||| R <T> I <T> *)
+(* C15: input  cand <T A> ||| R <T> I <T>
+         or    candh <T A> { mode .. }* ||| R <T> I <T> { V <T> R <T> I <T> }*   (see harness/drv/c15.cc): every stage is judged like a single
+               case on the value V the derived object shows before the call (gates prefixed again_); history_value = V is not the value the
+               stage must produce *)
 open Ex_c15
 open Common_c15
 open Ta_io_c15
+let judge pre a r i fails drift =
+  (* fast path: sub-automaton + non-emptiness (C15_candidate_ok_sound); otherwise the property itself (C15_gate) *)
+  if not (candidate_ok a r) then begin
+    drift := (pre ^ "not_subautomaton") :: !drift;
+    if not (cand_gate a r) then fails := (pre ^ "witness") :: !fails end;
+  if not (ta_same a i) then fails := (pre ^ "operand_changed") :: !fails
 let () = each_line (fun l ->
   let (c, o) = split_bar l in
-  let t = toks_of_line c in expect t "cand"; let a = read_ta t in
+  let ct = toks_of_line c in let kind = word ct in let a = read_ta ct in
   let t = toks_of_line o in
   match peek t with
   | Some "R" ->
     expect t "R"; let r = read_ta t in expect t "I"; let i = read_ta t in
     let fails = ref [] and drift = ref [] in
-    (* fast path: sub-automaton + non-emptiness (C15_candidate_ok_sound); otherwise the property itself (C15_gate) *)
-    if not (candidate_ok a r) then begin
-      drift := "not_subautomaton" :: !drift;
-      if not (cand_gate a r) then fails := "witness" :: !fails end;
-    if not (ta_same a i) then fails := "operand_changed" :: !fails;
-    (if !fails = [] then "OK" else "FAIL " ^ String.concat "," (List.rev !fails))
-    ^ (if !drift = [] then "" else " DRIFT " ^ String.concat "," (List.rev !drift))
+    judge "" a r i fails drift;
+    let cur = ref a and last = ref r and stages = ref 0 in
+    if kind = "candh" then
+      while peek ct <> None do
+        let mode = num ct in
+        let expected =
+          if mode = 5 then begin
+            let sym = n_of_int (num ct) in let par = n_of_int (num ct) in let k = num ct in let ch = times k (fun () -> n_of_int (num ct)) in
+            { rules = !cur.rules @ [{ sym = sym; ch = ch; par = par }]; finals = !cur.finals } end
+          else begin
+            let nf = num ct in let fin = times nf (fun () -> n_of_int (num ct)) in
+            if mode = 2 then { rules = !last.rules; finals = fin } else { rules = !cur.rules; finals = fin } end in
+        expect t "V"; let v = read_ta t in
+        if not (ta_same v expected) then fails := "history_value" :: !fails;
+        expect t "R"; let r2 = read_ta t in expect t "I"; let i2 = read_ta t in
+        judge "again_" v r2 i2 fails drift;
+        cur := v; last := r2; incr stages
+      done;
+    let fails = List.sort_uniq compare !fails and drift = List.sort_uniq compare !drift in
+    (if fails = [] then "OK" else "FAIL " ^ String.concat "," fails)
+    ^ (if drift = [] then "" else " DRIFT " ^ String.concat "," drift)
     ^ (if is_empty a then " empty" else " nonempty")
     ^ (if ta_same a r then " whole" else " proper")
     ^ (if ta_same r (cand_model a) then " as_model" else " other_witness")
+    ^ (if !stages > 0 then Printf.sprintf " history stages=%d" !stages else "")
   | _ -> "FAIL exception " ^ o)
